@@ -42,6 +42,8 @@ CHROMATIC = {b'C': 0, b'C#': 1, b'D-': 1, b'D': 2, b'D#': 3, b'E-': 3, b'E': 4, 
 
 
 def check(ctx, rep):
+    from . import c33 as _c33, _share as _sh
+    _sh.share(ctx, rep, _c33, ('numbers.',), 'numbers in a music macro string (literal, =variable;, =VARPTR$) are read by the shared macro-language parser with their sign and type')
     notes = ctx.const(S, 'NOTES')
     rep.ob('table.notes', 'NOTES is the chromatic scale with enharmonic flats', notes == CHROMATIC, repr(notes), S)
     for path, k, _ in ctx.cf.duplicates:
